@@ -158,7 +158,7 @@ Proof.
       apply merge_fixed_value_strict. eapply fixed_of_width; eauto.
     + destruct m; try (apply sound_strict_fail; discriminate).
       * apply string_merge_strict.
-      * apply bytes_merge_one_copy_strict.
+      * change (faststr_merge wt s) with (string_merge wt s). apply string_merge_strict.
       * apply bytes_merge_strict.
 Qed.
 
@@ -537,7 +537,8 @@ Proof.
   { unfold bytes_merge. apply rejected_bind_pure; [apply pure_check|]. intros _. apply (oversized_tail (fun len rem => _) s H). }
   assert (H2 : rejected_uncopied s (bytes_merge_one_copy wt s)).
   { unfold bytes_merge_one_copy. apply rejected_bind_pure; [apply pure_check|]. intros _. apply (oversized_tail (fun len rem => _) s H). }
-  repeat split; auto. unfold string_merge. apply rejected_bind. exact H2.
+  assert (H3 : rejected_uncopied s (string_merge wt s)) by (unfold string_merge; apply rejected_bind; exact H2).
+  repeat split; auto.
 Qed.
 
 (* <module>::merge with wire type LengthDelimited, for EVERY module: the string / bytes family rejects on
